@@ -36,12 +36,15 @@ TOKENS = [
     ("output", "noparent", ["--output", "{work}/nodir/report.codetf"]),
     ("output", "isdir", ["--output", "{res}"]),
     ("output", "devfull", ["--output", "/dev/full"]),
+    ("output", "devnull", ["--output", "/dev/null"]),
     ("sarif", "ok", ["--sarif", "{res}/semgrep.sarif"]),
     ("sarif", "missing", ["--sarif", "{res}/missing.sarif"]),
     ("sarif", "dup", ["--sarif", "{res}/semgrep.sarif,{res}/semgrep2.sarif"]),
     ("sarif", "two", ["--sarif", "{res}/semgrep.sarif,{res}/codeql.sarif"]),
     ("sonar", "ok", ["--sonar-issues-json", "{res}/sonar.json"]),
     ("sonar", "missing", ["--sonar-issues-json", "{res}/missing.json"]),
+    ("hotspots", "ok", ["--sonar-hotspots-json", "{res}/hotspots.json"]),
+    ("hotspots", "missing", ["--sonar-hotspots-json", "{res}/missing-hotspots.json"]),
     ("dojo", "ok", ["--defectdojo-findings-json", "{res}/dojo.json"]),
     ("dojo", "missing", ["--defectdojo-findings-json", "{res}/missing-dojo.json"]),
     ("flag", "dry", ["--dry-run"]),
@@ -62,6 +65,7 @@ RESFILES = {
     "semgrep2.sarif": _sarif("semgrep"),
     "codeql.sarif": _sarif("CodeQL"),
     "sonar.json": {"issues": []},
+    "hotspots.json": {"hotspots": []},
     "dojo.json": {"results": []},
 }
 
@@ -118,6 +122,8 @@ def run(chk: Check) -> None:
         "EnvLen": gen.RawTla("1"),
         "ExtraSeqs": extra,
         "EnvSeqs": env_seqs,
+        "DirTok": 1,
+        "Interesting": {i + 1 for i, t in enumerate(TOKENS) if t[0] in ("output", "sarif", "sonar", "hotspots", "dojo")},
     }
     # MaxLen-enumeration must not place the last-only tokens mid-sequence: restrict the enumerated pool
     data["Tokens"] = [{"k": t[0], "v": t[1]} for t in pool]
@@ -137,7 +143,7 @@ def run(chk: Check) -> None:
         # all sequences of length <= 1 and all with env; a seeded half of length 2; the seeded longer ones
         keep = []
         for c in cases:
-            if len(c[0]) <= 1 or c[1] != "none" or len(c[0]) >= 3 or chk.rng.random() < 0.45:
+            if len(c[0]) <= 1 or c[1] != "none" or len(c[0]) >= 3 or chk.rng.random() < 0.3:
                 keep.append(c)
         cases = keep
     scenarios = []
